@@ -384,6 +384,9 @@ func (r *Run) Sig(s string) {
 // Log appends to a per-role log (any goroutine).
 func (r *Run) Log(role, format string, a ...any) {
 	s := fmt.Sprintf(format, a...)
+	if r.Scrub != nil {
+		s = r.Scrub(s)
+	}
 	r.mu.Lock()
 	r.roleLogs[role] = append(r.roleLogs[role], s)
 	r.mu.Unlock()
